@@ -660,7 +660,7 @@ pub fn run(_args: &[String]) -> i32 {
 	.iter()
 	{
 		let m = M { with_crashes: *with_crashes };
-		let caps = Caps { max_depth: *depth, wall: Duration::from_secs(*wall), max_states: 60_000 };
+		let caps = Caps { max_depth: *depth, wall: Duration::from_secs(*wall), max_states: 60_000, min_depth: 2 };
 		let e = explore(&m, &format!("c15-{}", tag), &caps);
 		report_explored(&mut rep, "C15", tag, &e);
 		states += e.states;
